@@ -82,6 +82,24 @@ fn build(c: &'static Coin, case: &Case) -> ChainBuilder {
         let v = if case.cb_delta == i64::MIN { 0 } else { (reward as i64 + delta).max(0) as u64 };
         let filler_out = if case.mix == 9 { vec![TxOut { value: 1, script: vec![0x51; (i * 3) % 3000 + i / 4] }] } else { vec![] };
         let mut txs = vec![coinbase(h, 5, [vec![pay(1, v), pay(2, 1234), TxOut { value: 0, script: refmodel::script::op_return(format!("block {}", h).as_bytes()) }], filler_out].concat())];
+        if case.label == "coinbase forms" {
+            // the coinbase is a transaction like any other: stored in segwit form (witness reserved value, as in every block
+            // since segwit), with counts in wide CompactSize forms, or with a longer witness stack; all coinbases of the chain
+            // have the same witness-stripped size, so the first one is the biggest by size unless a mix transaction is larger
+            let cbtx = &mut txs[0];
+            match i % 4 {
+                1 => {
+                    cbtx.segwit = true;
+                    cbtx.inputs[0].witness = vec![vec![0u8; 32]];
+                }
+                2 => cbtx.wide = 1,
+                3 => {
+                    cbtx.segwit = true;
+                    cbtx.inputs[0].witness = vec![vec![0u8; 32], vec![0x42; 150]];
+                }
+                _ => {}
+            }
+        }
         txs.extend(mix_txs(case.mix, h));
         if case.types_world && i == 0 {
             let scripts = representatives(c, true);
@@ -152,6 +170,12 @@ pub fn run() -> Report {
             }
         }
         cases.push(Case { coin: cn, base: 0, times: vec![1000, 2000, 1500], mix: 4, cb_delta: 7, types_world: true, label: "every script type" });
+        for n in [1usize, 2, 3, 4, 5, 8] {
+            for mix in [0u8, 1, 7] {
+                cases.push(Case { coin: cn, base: 0, times: (0..n).map(|i| 1000 + 500 * i as u32).collect(), mix, cb_delta: 3, types_world: false, label: "coinbase forms" });
+                cases.push(Case { coin: cn, base: 0, times: (0..n).map(|i| 1000 + 500 * (n - i) as u32).collect(), mix, cb_delta: 3, types_world: false, label: "coinbase forms" });
+            }
+        }
     }
     for cn in ["bitcoin", "litecoin"] {
         for n in [2usize, 3, 4] {
